@@ -520,6 +520,13 @@ def main():
     report["hook_available"] = hook
     t1 = time.time()
     rust = run_harness(binary, cases, workdir)
+    # handles kept by the custom closures of the harness (C08): (changed, total) per case, not an observation
+    kept = {}
+    for i, r in enumerate(rust):
+        if r and isinstance(r[-1], tuple) and r[-1][0] == "kept":
+            kept[i] = r.pop()[1:]
+    for i, c in enumerate(cases):
+        c["kept_handles"] = kept.get(i)
     phase["harness_run_s"] = round(time.time() - t1, 1)
     t1 = time.time()
     # a few cases are too large for the list-based model (more than a thousand parameters): they are run
